@@ -154,6 +154,12 @@ class PoolWakeState {
   // when the thread wakes. Returns -1 if no sleeping threads.
   DISPENSO_DLL_ACCESS int32_t claimAndWakeOne();
 
+  // First half of claimAndWakeOne: claims a sleeper (clears its bit) and returns its index without
+  // waking anybody, so that the caller can make the work visible first and call
+  // waiterFor(idx).bumpAndWake() afterwards. The caller must issue that wake. Returns -1 if no sleeper
+  // could be claimed.
+  DISPENSO_DLL_ACCESS int32_t claimOne();
+
   // Wake threads in range [0, count) that are sleeping. Serial fork-join wake:
   // for each affected group, bumps the epoch and issues a futex syscall iff
   // sleepers exist in that group. O(numGroups) syscalls in the worst case;
